@@ -25,6 +25,9 @@ Variable P : params.
 Definition mk_children (l : list (N * script)) : list child :=
   map (fun p => mk_child (fst p) (snd p)) l.
 
+(** the lower bound of the iterator's size_hint that [from_iter] sees *)
+Definition lazy_hint (p : cparams) (cs : list child) : nat := if p_lazy p then 0 else length cs.
+
 Definition seed_of (p : cparams) : Z := match p_seed p with Some z => z | None => 0%Z end.
 
 Definition build (t : ctype) (p : cparams) (inits : list (N * script)) (ups : list upstep)
@@ -35,10 +38,10 @@ Definition build (t : ctype) (p : cparams) (inits : list (N * script)) (ups : li
   | TFUB => if p_iter p then let '(f, w) := fub_from_list cs w in (CFub f, w)
             else let '(f, w) := fub_new (p_cap p) w in (CFub f, w)
   | TMB => let '(f, w) := fub_from_list cs w in (CMb f, w)
-  | TFU => if p_iter p then let '(u, w) := fu_from_list P false cs w in (CFu u, w)
+  | TFU => if p_iter p then let '(u, w) := fu_from_list P false (lazy_hint p cs) cs w in (CFu u, w)
            else if p_new p then (CFu fu_empty, w)
            else let '(u, w) := fu_with_capacity (p_cap p) w in (CFu u, w)
-  | TMU => if p_iter p then let '(u, w) := fu_from_list P true cs w in (CMu u, w)
+  | TMU => if p_iter p then let '(u, w) := fu_from_list P true (lazy_hint p cs) cs w in (CMu u, w)
            else if p_new p then (CMu fu_empty, w)
            else let '(u, w) := fu_with_capacity (p_cap p) w in (CMu u, w)
   | TFOB => if p_iter p then
@@ -51,7 +54,7 @@ Definition build (t : ctype) (p : cparams) (inits : list (N * script)) (ups : li
                  | (NewPanic, w) => (CDead, emit (ERet RetPanic) w)
                  end
   | TFO => if p_iter p then
-             let '(q, w) := fo_from_list P cs w in
+             let '(q, w) := fo_from_list P (lazy_hint p cs) cs w in
              (CFo (match cs, p_seed p with
                    | [], Some z => {| fu_inner := fu_inner q; fu_ord := ord_new P 0 z |}
                    | _, _ => q end), w)
